@@ -136,7 +136,7 @@ func RuleT1(c *Ctx) {
 }
 
 func (c *Ctx) ruleT1Rec() {
-	sc := c.Run.Begin("T1r", "every recursive call cycle (VTA call graph, closures and library iterators included) descends a finite tree, is guarded by a visited/on-stack set, or is the scanner's same-byte dispatch bounded by S1e", 12)
+	sc := c.Run.Begin("T1r", "every recursive call cycle (VTA call graph, closures and library iterators included) descends a finite tree, is guarded by a visited/on-stack set, or is the scanner's same-byte dispatch bounded by S1e", 2)
 	defer sc.End()
 	cg := c.P.CallGraph()
 	m, pds, merr := c.Machine()
@@ -893,7 +893,7 @@ func (c *Ctx) callersLookedUpMark(pk *pkgT, decl *ast.FuncDecl, cf *cfgx.Func, c
 // ---------------------------------------------------------------- T1: loops
 
 func (c *Ctx) ruleT1Loops() {
-	sc := c.Run.Begin("T1l", "every for-loop that is not a range or a plain counted loop makes progress on every iteration: pointer-chain walk, shrinking slice, monotone index, lexeme/scanner worklist", 20)
+	sc := c.Run.Begin("T1l", "every for-loop that is not a range or a plain counted loop makes progress on every iteration: pointer-chain walk, shrinking slice, monotone index, lexeme/scanner worklist", 2)
 	defer sc.End()
 	next := c.Func("scanner", "Scanner.Next")
 	stackPop := c.Func("scanner", "Stack.Pop")
